@@ -160,6 +160,7 @@ func SmallInt(lo, hi int) *rapid.Generator[spec.Num] {
 // Alphabet chosen for the Unicode risks the code handles.
 var alphabet = []string{
 	"a", "b", "A", "z", "0", "9", " ", "-", "_", ":", "/", ".", ",", "(", "{", "%", "\"", "'", "\t",
+	"=", "<", ">", "\u0338", // the three ASCII signs that compose with a following mark (U+0338: = becomes U+2260 ...)
 	"\u0301", "\u0308", "\u0323", "\u0327", // combining acute, diaeresis, dot below, cedilla
 	"\u00e9", "e", "\u00f6", "o", "\u00e7", "c", "\u00c5", "\u212b", "A\u030a", // precomposed, compatibility (angstrom), decomposed
 	"\u1100", "\u1161", "\u11a8", "\uac00", "\uac01", // hangul jamo L V T, syllables LV, LVT
@@ -169,7 +170,7 @@ var alphabet = []string{
 	"\u0f71", "\u0f72", "\u0344", "\u1e9b\u0323", // tibetan vowel signs (reordering), deprecated combining, long s with dots
 }
 
-var words = []string{"", "a", "b", "foo", "bar", "hello", "true", "false", "1", "10", "null", "\u00e9", "e\u0301", "baz"}
+var words = []string{"", "a", "b", "foo", "bar", "hello", "true", "false", "1", "10", "null", "\u00e9", "e\u0301", "baz", "\u0338v", "k=\u0338v"}
 
 // String draws a valid UTF-8 string over the hostile alphabet.
 func String() *rapid.Generator[string] {
@@ -812,6 +813,19 @@ func abstractOf(t *rapid.T, v spec.V, allowDyn bool, kinds *[]string) spec.V {
 			// the full-prefix constructor is only sound for a prefix that
 			// really is a byte prefix of the normalised string: s[:c] is.
 			r.PrefixFull = rapid.Bool().Draw(t, "full")
+			if !r.PrefixFull && v.S != s && rapid.Bool().Draw(t, "rawprefix") {
+				// the safe constructor takes any prefix of the string AS WRITTEN
+				// (before normalisation): what follows the cut may fuse with its
+				// last character, which is what the constructor must allow for
+				var rcuts []int
+				for i := range v.S {
+					rcuts = append(rcuts, i)
+				}
+				rcuts = append(rcuts, len(v.S))
+				rp := v.S[:rapid.SampledFrom(rcuts).Draw(t, "rawcut")]
+				r.Prefix = &rp
+				add("prefix-raw")
+			}
 			if r.PrefixFull {
 				add("prefix-full")
 			} else {
